@@ -107,7 +107,8 @@ var tmpls = map[string]tmplInfo{
 
 var taskIDs = []string{"a", "b", "c", "d", "a.b", ".", ".."}
 var badTaskIDs = []string{"bad/id", "sp ace", ""}
-var tmplIDs = []string{"t1", "t2"}
+// (two of the template ids are in a prefix relation)
+var tmplIDs = []string{"t1", "t2", "t1_x"}
 
 type varsKind int
 
@@ -567,7 +568,14 @@ func genRequest(r *core.Rng, c catalogue) request {
 		id := existing()
 		nid := r.Pick(taskIDs)
 		rq := request{desc: fmt.Sprintf("rename task %q to %q", id, nid), method: "PATCH", path: "/tasks/" + id, body: map[string]interface{}{"id": nid}}
-		_, exists := c.Tasks[id]
+		// one request may rename and change the status at once
+		withStatus := ""
+		if r.Chance(0.35) {
+			withStatus = r.Pick([]string{"enabled", "disabled"})
+			rq.body["status"] = withStatus
+			rq.desc += " and set it " + withStatus
+		}
+		old, exists := c.Tasks[id]
 		_, clash := c.Tasks[nid]
 		if !exists || nid == "." || nid == ".." {
 			rq.class = "invalid"
@@ -575,12 +583,22 @@ func genRequest(r *core.Rng, c catalogue) request {
 		if exists && clash && nid != id {
 			rq.class = "rejected" // any error class, no effect
 		}
+		if rq.class == "" && exists && withStatus != "" && old.TemplateID == "" && (withStatus == "disabled" || startable(refreshed(c, old))) {
+			rq.class = "valid"
+		}
 		rq.apply = func(c catalogue) (catalogue, map[string]bool) {
 			n := c.clone()
-			if nid == id {
-				return n, map[string]bool{}
-			}
 			t := n.Tasks[id]
+			restarted := map[string]bool{}
+			if withStatus != "" && t.Status != withStatus {
+				t.Status = withStatus
+				t.Executing = withStatus == "enabled"
+				restarted[nid] = true
+				n.Tasks[id] = t
+			}
+			if nid == id {
+				return n, restarted
+			}
 			delete(n.Tasks, id)
 			n.Tasks[nid] = t
 			if _, has := n.Templates[t.TemplateID]; has && nid != id {
